@@ -605,7 +605,16 @@ class RedlineEngine:
         lo, old_hi = lcp, len(before) - lcs
         if matched is not None:
             lo, old_hi = min(lo, matched[0]), max(old_hi, matched[1])
-        shifted = [(s + delta, e + delta) if s >= old_hi else (s, e) for s, e in ranges]
+        shifted = []
+        for s, e in ranges:
+            if s >= old_hi:
+                shifted.append((s + delta, e + delta))
+            elif e > lo:
+                # An adjacent earlier edit whose markup was re-rendered together with this one
+                # (merged metadata block): both regions are occupied as a whole.
+                shifted.append((min(s, lo), max(e, old_hi) + delta))
+            else:
+                shifted.append((s, e))
         shifted.append((lo, old_hi + delta))
         return shifted
 
